@@ -48,6 +48,13 @@ pub enum Source {
         strategy: fn(Tier) -> BoxedStrategy<Scenario>,
         cases: fn(Tier) -> u32,
     },
+    /// for every generated scenario: the non-preemptive schedule, every schedule that deviates from
+    /// it at exactly one decision, and (thorough) every schedule with two deviations at most
+    /// `SYSTEMATIC_WINDOW` decisions apart
+    Systematic {
+        strategy: fn(Tier) -> BoxedStrategy<Scenario>,
+        cases: fn(Tier) -> u32,
+    },
     /// a finite family enumerated completely; `index` picks the shard's share
     Exhaustive {
         enumerate: fn(Tier) -> Box<dyn Iterator<Item = Scenario>>,
@@ -140,9 +147,14 @@ pub struct Report {
     pub violations: Vec<ViolationReport>,
     pub samples: Vec<serde_json::Value>,
     pub exhaustive_parts: Vec<String>,
+    #[serde(default)]
+    pub systematic_parts: Vec<String>,
     pub parts: BTreeMap<String, u64>,
     pub wall_s: f64,
 }
+
+pub const SYSTEMATIC_WINDOW: u32 = 12;
+pub const SYSTEMATIC_MAX_DECISIONS: u64 = 600;
 
 pub fn rle(trace: &[u8]) -> Vec<(u8, u32)> {
     let mut out: Vec<(u8, u32)> = Vec::new();
@@ -427,6 +439,71 @@ pub fn run_prop(
                             shrunk: false,
                         });
                         break;
+                    }
+                }
+            }
+            Source::Systematic { strategy, cases } => {
+                use crate::rt::{Policy, Schedule};
+                use proptest::strategy::{Strategy, ValueTree};
+                let n = ((cases(tier) as f64) * scale).ceil().max(1.0) as u32;
+                let rng = TestRng::from_seed(RngAlgorithm::ChaCha, &seed_bytes(seed, def.id, part.name, shard));
+                let mut runner = TestRunner::new_with_rng(Config { failure_persistence: None, ..Config::default() }, rng);
+                let strat = strategy(tier);
+                acc.rep.systematic_parts.push(part.name.to_string());
+                'scen: for _ in 0..n {
+                    let mut sc = match strat.new_tree(&mut runner) {
+                        Ok(t) => t.current(),
+                        Err(_) => continue,
+                    };
+                    sc.sched = Schedule { policy: Policy::Deviate(vec![]), bytes: vec![] };
+                    let (unknown, ex) = acc.eval(part, &sc, true);
+                    *acc.rep.counters.entry("systematic_scenarios".into()).or_insert(0) += 1;
+                    let mut failing: Option<(Scenario, Vec<Finding>)> = if unknown.is_empty() { None } else { Some((sc.clone(), unknown)) };
+                    let d = ex.outcome.decisions.min(SYSTEMATIC_MAX_DECISIONS) as u32;
+                    if ex.outcome.decisions > SYSTEMATIC_MAX_DECISIONS {
+                        *acc.rep.counters.entry("systematic_scenarios_truncated".into()).or_insert(0) += 1;
+                    }
+                    if failing.is_none() {
+                        'single: for i in 1..=d {
+                            for alt in 0..2u8 {
+                                let mut c = sc.clone();
+                                c.sched.policy = Policy::Deviate(vec![(i, alt)]);
+                                let (unknown, _) = acc.eval(part, &c, true);
+                                if !unknown.is_empty() {
+                                    failing = Some((c, unknown));
+                                    break 'single;
+                                }
+                            }
+                        }
+                    }
+                    if failing.is_none() && tier == Tier::Thorough {
+                        'double: for i in 1..=d {
+                            for j in (i + 1)..=(i + SYSTEMATIC_WINDOW).min(d + SYSTEMATIC_WINDOW) {
+                                for alt in 0..4u8 {
+                                    let mut c = sc.clone();
+                                    c.sched.policy = Policy::Deviate(vec![(i, alt & 1), (j, alt >> 1)]);
+                                    let (unknown, _) = acc.eval(part, &c, true);
+                                    if !unknown.is_empty() {
+                                        failing = Some((c, unknown));
+                                        break 'double;
+                                    }
+                                }
+                            }
+                        }
+                    }
+                    if let Some((c, _)) = failing {
+                        acc.failed = true;
+                        let c = minimize(&mut acc, part, c);
+                        let (unknown, ex) = acc.eval(part, &c, false);
+                        acc.rep.violations.push(ViolationReport {
+                            part: part.name.to_string(),
+                            findings: unknown,
+                            trace_rle: rle(&ex.outcome.trace),
+                            verdict: format!("{:?}", ex.outcome.verdict),
+                            scenario: c,
+                            shrunk: true,
+                        });
+                        break 'scen;
                     }
                 }
             }
